@@ -152,12 +152,13 @@ CLAIMED = {
            "for EVERY pair of valid documents (every $ref at every depth resolves, every array parameter/header level has items), every fuel and "
            "iteration order, no unguarded dereference of the analyser is reached (induction on the fuel through $ref cycles, allOf, items, "
            "properties; both hypotheses shown necessary); the hypothesis is tied to the reference validator on a sample of each run. "
-           "Termination ('never loops') is not proved - the model recurses on fuel; the real recursion guard is exercised by the sweep - labelled partial."),
+           "guard_returns / guard_marks / key_ignores_depth state the mechanism of the recursion guard (a $ref at a visited key returns with the state untouched, following a $ref marks the key, "
+           "the key reads the first two location nodes only). Termination itself ('never loops') is not proved - the model recurses on fuel; the real recursion is exercised by the sweep - labelled partial."),
   "note": DIFF_NOTE,
  },
  "C13": {
   "technique": "Lean 4 proof (policy-table theorems by decide over regenerated tables, detection theorems per constraint kind for all values, counterexample theorems) + edit-catalogue sweep with validated witnesses on the real analyser",
-  "text": ("Proof, partial: 41 theorems - the regenerated compatibility tables classify every narrowing code Breaking in its context (policy_sound_*, complete "
+  "text": ("Proof, partial: 43 theorems - the regenerated compatibility tables classify every narrowing code Breaking in its context (policy_sound_*, complete "
            "finite quantifier); CompareProps on two primitives of one type returns exactly the string / numeric / item-count group, and every narrowing kind the "
            "analyser reads (min/maxLength, pattern, string enum shrink, minimum/maximum incl. exclusive, min/maxItems, type and format narrowing) yields a "
            "Narrowed/AddedConstraint/ChangedType/DeletedEnumValue entry for ALL values (detected_*); text mode exits non-zero once an entry is Breaking; "
@@ -165,7 +166,7 @@ CLAIMED = {
            "(known findings). param_change_reported_breaking lifts detection to the whole report for parameters: for EVERY pair of documents sharing an endpoint and "
            "a parameter on which CompareProps finds a narrowing code, every report Analyse returns contains a Breaking entry (the analyser only appends - Mono "
            "lemmas through every pass - and its loops reach every shared parameter), for every fuel and iteration order; two end-to-end instances "
-           "(maxLength, maximum). The lifting for body schemas is decided by the catalogue sweep: 312 (edit kind x site) entries per round on fresh random specs, "
+           "(maxLength, maximum); removed_endpoint_reported_breaking and added_required_param_reported_breaking do the same for the two structural edits. The lifting for body schemas is decided by the catalogue sweep: 330 (edit kind x site) entries per round on fresh random specs, "
            "witness validated accepted-before/rejected-after by go-openapi/validate, real report must contain a Breaking entry and exit non-zero."),
   "note": DIFF_NOTE,
  },
